@@ -31,7 +31,7 @@ def _cases() -> List[dict]:
 def plan(tier: str) -> dict:
     return {
         "runs": 4000 if tier == "quick" else 200000,
-        "budget": 70 if tier == "quick" else 1500,
+        "budget": 70 if tier == "quick" else 900,
         "cases": _cases(),
         "chunk": 30,
         "rule": "1..6 connections, each in one of nine phases at the trigger (idle keep-alive, partial request head, "
